@@ -38,6 +38,8 @@ def materialise(t):
     order = {"ba": ["b.md", "a.md"], "sub_first": ["sub"], "b_only": ["b.md"], "none": []}[t["ord"]]
     meta += [f"ordered_subpage: {x}" for x in order]
     if t["rootcopy"]:
+        if t.get("missfirst"):
+            meta.append("copy_subdir: nosuchdir")
         meta.append("copy_subdir: assets")
     rel = []
     if t["a"] == 1:
@@ -64,6 +66,9 @@ def materialise(t):
             f["pages/sub/c.md"] = page("Page C" if t["c"] == 1 else None, "CWORD [up](../index.html) [sub](index.html) " + LINKS)
         if t["stxt"]:
             f["pages/sub/d.txt"] = "data\n"
+        if t.get("subassets"):
+            f["pages/sub/assets/index.md"] = page("Sub Assets", "SUBASSETSWORD [up](../index.html)")
+            f["pages/sub/assets/pic.png"] = "PNG3"
         if t["assets2"]:
             f["pages/sub/assets2/index.md"] = page("Assets Two", "ASSETS2WORD")
             f["pages/sub/assets2/img2.png"] = "PNG2"
@@ -152,7 +157,7 @@ def run(tier, seed, ck: Check):
     finally:
         shutil.rmtree(scratch, ignore_errors=True)
     if not big:
-        cases = [c for c in cases if zlib.crc32(json.dumps(c["t"], sort_keys=True).encode()) % 24 == seed % 24]
+        cases = [c for c in cases if zlib.crc32(json.dumps(c["t"], sort_keys=True).encode()) % 50 == seed % 50]
     for c, r_ in zip(cases, pool.pmap(evaluate, cases, chunksize=2)):
         ck.count()
         ck.nontrivial_case(json.dumps(c["t"], sort_keys=True))
